@@ -43,6 +43,8 @@ type c02Case struct {
 	DupPubKey     bool     `json:"dup_pubkey,omitempty"` // the step lists one authorised key id twice (still one functionary)
 	LinkDirName   string   `json:"link_dir_name,omitempty"` // name of the link directory ("" = links)
 	Symlinked     bool     `json:"symlinked,omitempty"`     // the entries of the link directory are symbolic links to files kept elsewhere
+	OtherFirst    bool     `json:"other_first,omitempty"`   // the step lists another certificate constraint (nobody here meets it) in front of the one that matters
+	CertOnly      bool     `json:"cert_only,omitempty"`     // the step lists no public keys at all: one constraint authorises a whole pool of certificate functionaries
 }
 
 // c02Kind describes one kind of link file for step s0.
@@ -314,6 +316,13 @@ func c02World(c c02Case) (hx.World, map[string][]string, error) {
 	if c.DupPubKey {
 		s0.PubKeys = append([]string{hx.PoolKey(c02A1).KeyID, hx.PoolKey(c02A2).KeyID}, s0.PubKeys...)
 	}
+	if c.OtherFirst {
+		other := hx.MConstraint{CommonName: "somebody-else", DNSNames: []string{"*"}, Emails: []string{"*"}, Organizations: []string{"another-company"}, Roots: []string{"*"}, URIs: []string{"*"}}
+		s0.Constraints = append([]hx.MConstraint{other}, s0.Constraints...)
+	}
+	if c.CertOnly {
+		s0.PubKeys = []string{}
+	}
 	lay.Steps = []hx.MStep{s0}
 	w := hx.World{Entry: "cwd", PKI: pki, Product: []hx.WFile{{Path: "out.txt", Content: "payload"}}}
 	if c.Intermediate == "caller" {
@@ -346,6 +355,16 @@ func c02World(c c02Case) (hx.World, map[string][]string, error) {
 		}
 		w.Links = append(w.Links, f)
 		truth[f.Name] = k.truth(c)
+		if c.CertOnly {
+			// nobody is authorised through a key
+			var certs []string
+			for _, fn := range truth[f.Name] {
+				if !strings.HasPrefix(fn, "key:") {
+					certs = append(certs, fn)
+				}
+			}
+			truth[f.Name] = certs
+		}
 	}
 	if c.SecondStep {
 		s1 := hx.MStep{Type: "step", Name: "s1", ExpMat: [][]string{{"ALLOW", "*"}}, ExpProd: [][]string{{"ALLOW", "*"}},
@@ -474,6 +493,7 @@ func c02Eval(c c02Case, r *hx.Rec) error {
 	r.Label("stepname=%q", c.StepName)
 	r.Label("linkdir=%q", c.LinkDirName)
 	r.Label("symlinked-links=%v", c.Symlinked)
+	r.Label("other-constraint-first=%v/cert-only=%v", c.OtherFirst, c.CertOnly)
 	if c.NoRoots {
 		r.Label("no-layout-roots")
 	}
@@ -483,7 +503,7 @@ func c02Eval(c c02Case, r *hx.Rec) error {
 	if c.DupPubKey {
 		r.Label("duplicate-pubkey")
 	}
-	r.Key("%d|%v%v%v%v%s|%s|%s|%s|%v%v%v", c.Threshold, c.SecondStep, c.SecondFirst, c.ForeignInter, c.MultiValued, c.StepName, c.LayoutWrapper, c.Intermediate, strings.Join(sorted, ","), c.NoRoots, c.Params, c.DupPubKey) // (the link directory's name is not part of the key: it must not matter)
+	r.Key("%d|%v%v%v%v%s|%s|%s|%s|%v%v%v%v%v", c.Threshold, c.SecondStep, c.SecondFirst, c.ForeignInter, c.MultiValued, c.StepName, c.LayoutWrapper, c.Intermediate, strings.Join(sorted, ","), c.NoRoots, c.Params, c.DupPubKey, c.OtherFirst, c.CertOnly) // (the link directory's name is not part of the key: it must not matter)
 
 	var first *bool
 	for rep := 0; rep < c.Repeats; rep++ {
@@ -587,6 +607,26 @@ func c02Gen(t *rapid.T) c02Case {
 	c.Kinds = rapid.SliceOfNDistinct(rapid.SampledFrom(c02KindNames), 0, 5, rapid.ID[string]).Draw(t, "kinds")
 	// the directory holding the links is the user's: its name may contain anything a file name may
 	c.Symlinked = rapid.IntRange(0, 3).Draw(t, "symlinked") == 0
+	c.OtherFirst = rapid.IntRange(0, 2).Draw(t, "otherfirst") == 0
+	c.CertOnly = rapid.IntRange(0, 3).Draw(t, "certonly") == 0
+	if c.CertOnly && rapid.Bool().Draw(t, "certpool") {
+		// a pool of certificate functionaries under the one constraint, a threshold above one
+		pool := rapid.SliceOfNDistinct(rapid.SampledFrom([]string{"honest-cert:leaf1", "honest-cert:leaf2", "honest-cert:leaf-direct"}), 2, 3, rapid.ID[string]).Draw(t, "pool")
+		extra := rapid.SliceOfNDistinct(rapid.SampledFrom(c02KindNames), 0, 2, rapid.ID[string]).Draw(t, "poolextra")
+		c.Kinds = append([]string{}, pool...)
+		for _, e := range extra {
+			dup := false
+			for _, k := range c.Kinds {
+				if k == e {
+					dup = true
+				}
+			}
+			if !dup {
+				c.Kinds = append(c.Kinds, e)
+			}
+		}
+		c.Threshold = rapid.IntRange(2, 3).Draw(t, "poolthreshold")
+	}
 	c.LinkDirName = rapid.SampledFrom([]string{"", "", "", "links[1]", "out*", "rel?ase", "a\\b", "link dir", "[", "links.d"}).Draw(t, "linkdirname")
 	return c
 }
